@@ -255,10 +255,14 @@ func ham2418(d uint32) [3]byte {
 // designationUnit builds an X/28/0 format 1 (y=28) or M/29/0 (y=29) packet that designates the Latin G0/G2 sets with
 // the national option sub-set given by C12-C14 (table 32: bits 14-11 = 0000, bits 10-8 = C12 C13 C14); all other
 // triplets are zero.
-func designationUnit(mag, y uint8, c12, c13, c14 uint8, family uint32) []byte {
+func designationUnit(mag, y uint8, c12, c13, c14 uint8, family uint32, code ...uint8) []byte {
 	// page function 0 (bits 1-4), page coding 0 (bits 5-7), set designation: bits 14-11 family, bits 10-8 national option
 	t1 := family<<10 | uint32(c12)<<9 | uint32(c13)<<8 | uint32(c14)<<7
-	d := []byte{ham84(0)}
+	dc := uint8(0) // designation code: 0, or 4 (the level 3.5 twin of the packet, same layout)
+	if len(code) > 0 {
+		dc = code[0]
+	}
+	d := []byte{ham84(dc)}
 	tr := ham2418(t1)
 	d = append(d, tr[0], tr[1], tr[2])
 	z := ham2418(0)
@@ -381,6 +385,8 @@ type ttxStream struct {
 	// only, 2 VBI teletext descriptor, 3 two entries of other types, 4 descriptor without entries. It is the first
 	// teletext PID of the PMT in every case.
 	DescKind int `json:"desc_kind,omitempty"`
+	// PrivateData: packets of an unrelated PID holding private data follow each PES packet of the teletext PID
+	PrivateData bool `json:"private_data,omitempty"`
 	// ViaFile: also read the stream from a file through Open
 	ViaFile     bool  `json:"via_file,omitempty"`
 	Designation int   `json:"designation"` // 1: X/28/0 after each header, 2: M/29/0 before each header, designating the set the header already selects
@@ -475,7 +481,11 @@ func (s ttxStream) render() ([]byte, []ttxExpCue) {
 		if s.Designation == 4 && ii == 0 || s.Designation == 5 {
 			// the magazine's default character set is the second Latin row of table 32 (Polish under C12-C14 = 000), announced
 			// once before the first page header of the stream, or before every header; no X/28 contradicts it
-			units = append(units, designationUnit(s.Mag, 29, 0, 0, 0, 1))
+			if s.Stuffing {
+				// first a designation of the Cyrillic set under the other designation code: the later packet replaces it
+				units = append(units, designationUnit(s.Mag, 29, 0, 0, 0, 4, uint8(4*(ii%2))))
+			}
+			units = append(units, designationUnit(s.Mag, 29, 0, 0, 0, 1, uint8(4*((ii+1)%2))))
 			if s.Enhancement {
 				// and right after it, another magazine announces a Cyrillic default: none of this page's business
 				units = append(units, designationUnit(otherMag, 29, 0, 0, 0, 4))
@@ -540,6 +550,11 @@ func (s ttxStream) render() ([]byte, []ttxExpCue) {
 			pending = nil
 		}
 		send(ttxPID, in.PTS, units...)
+		if s.PrivateData {
+			// packets of a PID that carries neither PES packets nor tables the demultiplexer knows (private data), with a
+			// payload unit start: whatever it makes of them, they are no subtitles
+			m.packets(0x1ff0, append([]byte{0x47, 0x11, 0x22, 0x33}, bytes.Repeat([]byte{0x5a}, 200)...))
+		}
 		if len(second) > 0 {
 			send(ttxPID, secondPTS, second...)
 		}
@@ -579,6 +594,9 @@ func (s ttxStream) render() ([]byte, []ttxExpCue) {
 	}
 	if s.LeadOut > 0 && len(s.Instances) > 0 {
 		send(ttxPID, s.Instances[len(s.Instances)-1].PTS+s.LeadOut, stuffingUnit())
+	}
+	if s.PrivateData {
+		m.packets(0x1ff0, append([]byte{0x47, 0x11, 0x22, 0x33}, bytes.Repeat([]byte{0x5a}, 300)...))
 	}
 	// ground truth
 	for ii, in := range s.Instances {
@@ -851,6 +869,16 @@ func genTTXStream(t *rapid.T) ttxStream {
 		Designation:   rapid.SampledFrom([]int{0, 0, 1, 2, 3, 4, 5}).Draw(t, "designation"),
 		DescKind:      rapid.SampledFrom([]int{0, 0, 0, 1, 2, 3, 4}).Draw(t, "desckind"),
 		ViaFile:       rapid.IntRange(0, 3).Draw(t, "viafile") == 0,
+		PrivateData:   rapid.IntRange(0, 2).Draw(t, "privatedata") == 0,
+	}
+	if !s.OptPage && rapid.IntRange(0, 4).Draw(t, "hexpage") == 0 {
+		// a page number with a hexadecimal digit (not reachable from a remote control, fine for subtitles): only found
+		// by auto-detection, the page option being decimal
+		s.Units = uint8(rapid.IntRange(10, 15).Draw(t, "hexunits"))
+		if rapid.Bool().Draw(t, "hextens") {
+			s.Tens = uint8(rapid.IntRange(10, 14).Draw(t, "hextensv"))
+		}
+		s.HexDistractor = false // (that distractor is built for decimal page numbers)
 	}
 	pts := rapid.Int64Range(2, 90000*3600).Draw(t, "pts0")
 	if rapid.Bool().Draw(t, "leadin") {
